@@ -2253,3 +2253,64 @@ def specialize(prog, cls, fn, assume, module=None, rounds=6):
         for child in ast.iter_child_nodes(node):
             child._parent = node
     return new
+
+
+def split_callee_choice(fn):
+    """A copy of ``fn`` in which a callee chosen by a conditional expression and bound to a local,
+
+        v = A if c else B            if c:
+        ...                    ->        A(args)
+        v(args)                      else:
+                                         B(args)
+
+    is called directly on each side (``v`` assigned exactly once, used only as the callee of expression statements of the
+    same block, nothing in ``c`` stored in between). The two forms are the same program; the helper inliner resolves only
+    the second. Returns ``fn`` itself when there is nothing to rewrite."""
+    new = clone(fn)
+    changed = False
+    stores = {}
+    for n in ast.walk(new):
+        if isinstance(n, ast.Name) and isinstance(n.ctx, (ast.Store, ast.Del)):
+            stores[n.id] = stores.get(n.id, 0) + 1
+    for owner in ast.walk(new):
+        for field in ('body', 'orelse', 'finalbody'):
+            blk = getattr(owner, field, None)
+            if not isinstance(blk, list):
+                continue
+            i = 0
+            while i < len(blk):
+                s = blk[i]
+                i += 1
+                if not (isinstance(s, ast.Assign) and len(s.targets) == 1 and isinstance(s.targets[0], ast.Name)
+                        and isinstance(s.value, ast.IfExp) and stores.get(s.targets[0].id) == 1):
+                    continue
+                v = s.targets[0].id
+                uses = [n for n in ast.walk(new) if isinstance(n, ast.Name) and n.id == v and isinstance(n.ctx, ast.Load)]
+                calls = [x for x in blk[i:] if isinstance(x, ast.Expr) and isinstance(x.value, ast.Call)
+                         and isinstance(x.value.func, ast.Name) and x.value.func.id == v]
+                if not calls or len(uses) != len(calls):
+                    continue
+                cond_names = {n.id for n in ast.walk(s.value.test) if isinstance(n, ast.Name)}
+                last = max(blk.index(x) for x in calls)
+                between = blk[i - 1:last + 1]
+                if any(isinstance(n, ast.Name) and isinstance(n.ctx, (ast.Store, ast.Del)) and n.id in cond_names
+                       for st in between for n in ast.walk(st)):
+                    continue
+                for x in calls:
+                    def direct(callee, x=x):
+                        c = clone(x)
+                        c.value.func = clone(callee)
+                        return c
+                    repl = ast.copy_location(ast.If(test=clone(s.value.test), body=[direct(s.value.body)],
+                                                    orelse=[direct(s.value.orelse)]), x)
+                    blk[blk.index(x)] = repl
+                blk.remove(s)
+                i -= 1
+                changed = True
+    if not changed:
+        return fn
+    ast.fix_missing_locations(new)
+    for a in ('_cls', '_module'):
+        if hasattr(fn, a):
+            setattr(new, a, getattr(fn, a))
+    return new
